@@ -56,3 +56,69 @@ Definition outcome_of (r : result) : option outcome :=
 Definition inside_form (s : sstate) : bool :=
   negb (match stack (c_p (s_core s)) with [] => true | _ => false end) ||
   match c_mode (s_core s) with MString | MSymbol | MEsc | MRune | MBlockComment | MBlockEnd => true | _ => false end.
+
+(* =============== read-from-string: what the property demands of it =============== *)
+(* One form is read from text[start, end) - the bounds 0 <= start <= end <= length are all valid - and the
+   position reported with it is where the form ends (s_read_gen ... true: the one-form read), moved over
+   the white space that follows it inside the substring unless :preserve-whitespace is given. *)
+Definition rfs_s (T : tables) (esc : byte -> byte) (text : list byte) (start : nat) (end_ : option nat) (pw : bool) : rfs_result :=
+  let n := length text in
+  let e := match end_ with Some e => e | None => n end in
+  if (n <? start) || (n <? e) || (e <? start) then FBounds
+  else
+    let buf := slice text start e in
+    match s_read_gen T esc true buf with
+    | RErr er objs => FErr er objs
+    | ROk [] p => FEof (start + p)
+    | ROk (t :: _) p => FObj t (start + (if pw then p else skip_ws (skipn p buf) p))
+    end.
+
+(* the position rule as a predicate: q is reached from the end p of the form over white space only, and
+   stops at the first byte that is not white space (or at the end) *)
+Definition ws_pos_ok (buf : list byte) (p q : nat) : Prop :=
+  p <= q <= Nat.max p (length buf) /\
+  (forall i, p <= i < q -> is_ws (nth i buf 0%N) = true) /\
+  (q < length buf -> is_ws (nth q buf 0%N) = false).
+
+(* where the function as it is written meets this: the plain call, or a call with keys that starts at 0 or
+   preserves white space, and starts inside the string; characters are bytes (ASCII) *)
+Definition ascii (text : list byte) : bool := forallb (fun b => (b <? 128)%N) text.
+Definition g_rfs (keys : bool) (text : list byte) (start : nat) (pw : bool) : bool :=
+  negb keys || ((Nat.eqb start 0 || pw) && (start <? length text)).
+(* the position counted in characters: the bytes that do not continue a UTF-8 sequence *)
+Definition char_pos (text : list byte) (q : nat) : nat :=
+  length (filter (fun b => negb ((128 <=? b)%N && (b <? 192)%N)) (firstn q text)).
+
+(* ---- reading a text form by form ---- *)
+(* (loop (read-from-string text nil eof :start pos)) from the positions the function reports, until the
+   end of the text; None: the fuel ran out or a bound was refused (never, see the theorems) *)
+Fixpoint forms_from (step : nat -> rfs_result) (n : nat) (fuel : nat) (pos : nat) : option result :=
+  match fuel with
+  | O => None
+  | S f =>
+      if n <=? pos then Some (ROk [] pos)
+      else match step pos with
+           | FObj t q => option_map (prepend [t] 0) (forms_from step n f q)
+           | FEof q => Some (ROk [] q)
+           | FErr e objs => Some (RErr e objs)
+           | FBounds => None
+           end
+  end.
+(* (read-from-string rest) on what is left of the text, rest := (subseq rest pos) *)
+Fixpoint forms_suffix (step : list byte -> rfs_result) (fuel : nat) (rest : list byte) : option result :=
+  match fuel with
+  | O => None
+  | S f =>
+      match rest with
+      | [] => Some (ROk [] 0)
+      | _ => match step rest with
+             | FObj t q => option_map (prepend [t] q) (forms_suffix step f (skipn q rest))
+             | FEof q => Some (ROk [] q)
+             | FErr e objs => Some (RErr e objs)
+             | FBounds => None
+             end
+      end
+  end.
+Definition forms_by_start_s T esc pw text := forms_from (fun pos => rfs_s T esc text pos None pw) (length text) (S (length text)) 0.
+Definition forms_by_start_m T esc pw text := forms_from (fun pos => rfs_m T esc true text pos None pw) (length text) (S (length text)) 0.
+Definition forms_by_suffix_m T esc text := forms_suffix (fun rest => rfs_m T esc false rest 0 None false) (S (length text)) text.
